@@ -262,6 +262,14 @@ func (evkg EvaluationKeyGenProtocol) GenEvaluationKey(share EvaluationKeyGenShar
 		return fmt.Errorf("cannot GenEvaluationKey: share LevelP != evk LevelP")
 	}
 
+	if share.BaseTwoDecomposition != evk.BaseTwoDecomposition || !slices.Equal(share.BaseTwoDecompositionVectorSize(), evk.BaseTwoDecompositionVectorSize()) {
+		return fmt.Errorf("cannot GenEvaluationKey: share BaseTwoDecomposition != evk BaseTwoDecomposition")
+	}
+
+	if crp.LevelQ() != share.LevelQ() || crp.LevelP() != share.LevelP() || !slices.Equal(share.BaseTwoDecompositionVectorSize(), crp.BaseTwoDecompositionVectorSize()) {
+		return fmt.Errorf("cannot GenEvaluationKey: crp does not match the share (levels or decomposition)")
+	}
+
 	m := share.Value
 	p := crp.Value
 
